@@ -107,7 +107,7 @@ func c07Normalize(d *vfkit.Decoded) string {
 }
 
 func TestVfC07Cache(t *testing.T) {
-	st := vfkit.Stats("TestVfC07Cache", "histories of 8-24 queries around one base question that differ from it in exactly one of {letter case, name, class, type, client group (other range, same range, same label in another range, no range, unknown address)}, sequential and in concurrent bursts, against proxies with an ample and a tiny memory cache; upstream answers carry a serial unique per upstream query (TTL 300), random flags/sections and, for one name in three, 28 glue records (about 3 KiB uncompressed); oracles: all queries answered with one serial agree on (lower-cased name, class, type, group), responses with one serial are equal apart from ID/TTL, and (ample cache) a repeat of an already answered key causes no upstream query; non-trivial = history contains a pair differing in exactly one component after the first was cached")
+	st := vfkit.Stats("TestVfC07Cache", "histories of 8-24 queries around one base question that differ from it in exactly one of {letter case, name, class, type, client group (other range, same range, same label in another range, no range, unknown address)}, sequential and in concurrent bursts, against proxies with an ample memory cache, a tiny one, and none but a second-level store (the harness's RESP3 server); upstream answers carry a serial unique per upstream query (TTL 300), random flags/sections and, for one name in three, 28 glue records (about 3 KiB uncompressed); oracles: all queries answered with one serial agree on (lower-cased name, class, type, group), responses with one serial are equal apart from ID/TTL, and (ample cache) a repeat of an already answered key causes no upstream query; non-trivial = history contains a pair differing in exactly one component after the first was cached")
 	defer vfkit.Flush()
 	block := NextIPBlock()
 	up, err := StartUpstream("udp", "up", block+"2", 0, nil, func(q *UpQuery) UpAction {
@@ -153,17 +153,26 @@ func TestVfC07Cache(t *testing.T) {
 		ip   string
 		unix string
 	}
-	proxies := map[bool]*px{}
-	for i, tiny := range []bool{false, true} {
+	// the third proxy keeps its cache in the harness's own RESP3 store only (second-level cache, kit/fakeredis.go)
+	store, err := vfkit.StartFakeRedis(block + "3")
+	if err != nil {
+		t.Fatal(err)
+	}
+	defer store.Close()
+	proxies := map[string]*px{}
+	for i, mode := range []string{"large", "tiny", "store"} {
 		pip := block + itoa(10+i)
 		unix := fmt.Sprintf("@vf-c07-%d-%d", os.Getpid(), i)
-		size := 64 << 20
-		if tiny {
-			size = 3000
+		cc := &CacheCfg{MemSize: 64 << 20, IpMarker: "$DIR/marker.txt"}
+		switch mode {
+		case "tiny":
+			cc.MemSize = 3000
+		case "store":
+			cc.MemSize, cc.Redis = 0, store.URL()
 		}
 		cfg := &Config{Servers: StdServers(pip, []string{"udp", "http"}, "X-Client"),
 			Upstreams: []UpstreamCfg{{Tag: "up", Addr: up.Addr()}}, Rules: []Rule{{Forward: "up"}},
-			Cache: &CacheCfg{MemSize: size, IpMarker: "$DIR/marker.txt"}}
+			Cache: cc}
 		cfg.Servers = append(cfg.Servers, ServerCfg{Tag: "unix", Protocol: "http", Listen: unix})
 		p, err := StartProxy(cfg.YAML(), map[string]string{"marker.txt": c07Marker}, ProxyOpts{})
 		if err != nil {
@@ -173,13 +182,18 @@ func TestVfC07Cache(t *testing.T) {
 		if p.Exited() {
 			t.Fatalf("proxy exited: %s", tail(p.Stderr(), 1500))
 		}
-		proxies[tiny] = &px{p, pip, unix}
+		proxies[mode] = &px{p, pip, unix}
+	}
+	for until := time.Now().Add(5 * time.Second); store.Pings.Load() < 2 && time.Now().Before(until); {
+		time.Sleep(20 * time.Millisecond) // the proxy uses the store after its first successful PING
 	}
 	seq := 0
 	rapid.Check(t, func(t *rapid.T) {
 		seq++
-		tiny := rapid.IntRange(0, 3).Draw(t, "tinyCache") == 0
-		P := proxies[tiny]
+		mode := rapid.SampledFrom([]string{"large", "large", "tiny", "store"}).Draw(t, "cacheMode")
+		tiny := mode == "tiny"
+		P := proxies[mode]
+		storeHitsBefore := store.Hits.Load()
 		// a drawn tail over the whole alphabet: the case folding of every letter is on the path
 		label := fmt.Sprintf("c%dp%d", seq, os.Getpid()) + rapid.StringMatching("[a-z]{0,6}").Draw(t, "labelTail")
 		baseName := vfkit.Name{[]byte("_" + label), []byte("cache"), []byte("test")}
@@ -281,7 +295,7 @@ func TestVfC07Cache(t *testing.T) {
 				}(b)
 			}
 			wg.Wait()
-			desc := fmt.Sprintf("ask %d of history: name=%s type=%d class=%d client=%s/%v group=%q burst=%d tinyCache=%v", i, a.name, a.typ, a.class, a.client.via, a.client.addr, key.group, a.burst, tiny)
+			desc := fmt.Sprintf("ask %d of history: name=%s type=%d class=%d client=%s/%v group=%q burst=%d cache=%s", i, a.name, a.typ, a.class, a.client.via, a.client.addr, key.group, a.burst, mode)
 			for b := range results {
 				if errs[b] != nil {
 					t.Fatalf("no response: %v; %s", errs[b], desc)
@@ -337,7 +351,7 @@ func TestVfC07Cache(t *testing.T) {
 			}
 			time.Sleep(time.Millisecond)
 			newQ := up.NumQueries() - before
-			if already && !tiny {
+			if already && mode == "large" {
 				if newQ != 0 {
 					t.Fatalf("an identical repeat (same name/class/type/group, ample cache, TTL 300) caused %d new upstream queries; %s", newQ, desc)
 				}
@@ -367,7 +381,11 @@ func TestVfC07Cache(t *testing.T) {
 		if cr := P.p.Crashed(); cr != "" {
 			t.Fatalf("proxy crashed: %s", cr)
 		}
-		classes := []string{fmt.Sprintf("tiny=%v", tiny)}
+		classes := []string{"cache=" + mode}
+		if mode == "store" {
+			st.Class("store-hits", int(store.Hits.Load()-storeHitsBefore))
+		}
+		_ = tiny
 		st.Case(vfkit.Fingerprint(label, fmt.Sprint(asks)), single, classes, func() any {
 			return map[string]any{"base": baseName.String(), "type": baseType, "class": baseClass, "asks": n, "tiny_cache": tiny, "serials": len(bySerial)}
 		})
